@@ -167,6 +167,9 @@ def http_patterns(ctx):
 
         @srpc(_returns=Integer, _patterns=[HttpPattern('/a/list')])
         def m6(): ran.append('m6'); return 1
+
+        @srpc(_returns=Integer, _in_message_name='find', _patterns=[HttpPattern(verb='GET')])
+        def lookup(): ran.append('m7'); return 1
     try:
         w = WsgiApplication(Application([S], 'tns', in_protocol=HttpRpc(), out_protocol=JsonDocument()))
     except Exception as e:
